@@ -39,7 +39,7 @@ XML_PROLOG = b'<?xml version="1.0" encoding="utf-8"?>'
 # --------------------------------------------------------------------------------------------- TLC side
 def _consts(run, registered):
     reg = '{' + ', '.join(f'"{r}"' for r in registered) + '}'
-    q = dict(MaxN=40, MaxC=9, MutN=3, MutC=2, ShortLen=4, MaxEntries=2, Registered=reg)
+    q = dict(MaxN=24, MaxC=7, MutN=3, MutC=2, ShortLen=4, MaxEntries=2, Registered=reg)
     t = dict(MaxN=64, MaxC=17, MutN=6, MutC=3, ShortLen=6, MaxEntries=3, Registered=reg)
     return run.pick(q, t)
 
@@ -61,11 +61,14 @@ def _emit(run, consts, part):
     return res, cases
 
 
-def _reader_mc(run, consts, dom):
-    cfg = _write_cfg(f'_gen_c17_reader_{dom}.cfg', consts,
+def _reader_mc(run, consts, dom, coverage=False):
+    """Model-check the reader machine on one stream domain (coverage is slow: only on a small domain)."""
+    consts = dict(consts, MutN=1, MutC=1) if coverage else consts
+    name = f'_gen_c17_reader_{dom}{"_cov" if coverage else ""}.cfg'
+    cfg = _write_cfg(name, consts,
                      f'  StreamDomain = "{dom}"\nINVARIANT Refines\nINVARIANT ReadBound\nINVARIANT TypeOK\n'
                      'PROPERTY Terminates\n')
-    return run_tlc('ChunkReader', cfg, workers=4, coverage=True, timeout=1500)
+    return run_tlc('ChunkReader', cfg, workers=1 if coverage else 2, coverage=coverage, timeout=1500)
 
 
 # --------------------------------------------------------------------------------------------- concretisation
@@ -96,7 +99,7 @@ class Ctx:
 def _dechunk_records(ctx, stream: bytes, vias, tag):
     """Feed one chunked stream to the real readers."""
     from sdc11073.httpserver.httpreader import mk_chunks  # noqa: F401
-    pyok, _pybody, pyused = H.py_parse_chunked(stream)
+    pyok, _pybody, pyused, _cnt = H.py_parse_chunked(stream)
     recs = []
     for via in vias:
         if via == 'direct':
@@ -156,17 +159,33 @@ def _exchange(ctx, body: bytes, reply: bytes, coding: str, chunk: int, client_ki
     resp_hdr, resp_rest = H.split_head(s.raw_response if s is not None else b'')
     fh = _frame_headers(req_hdr)
     rec['req_te'], rec['req_cl'] = fh['te'], fh['cl']
-    rec['req_stream'] = list(req_rest) if fh['te'] else []
     rec['req_len'] = len(req_rest)
     rec['req_coding'] = req_hdr.get('content-encoding', 'none')
+    _framed(rec, 'req', req_rest if fh['te'] else b'')
     if client_kind == 'sync':
         fh = _frame_headers(resp_hdr)
         rec['resp_te'], rec['resp_cl'] = fh['te'], fh['cl']
-        rec['resp_stream'] = list(resp_rest) if fh['te'] else []
         rec['resp_len'] = len(resp_rest)
+        _framed(rec, 'resp', resp_rest if fh['te'] else b'')
     else:
-        rec['resp_te'], rec['resp_cl'], rec['resp_stream'], rec['resp_len'] = False, True, [], 0
+        rec['resp_te'], rec['resp_cl'], rec['resp_len'] = False, True, 0
+        _framed(rec, 'resp', b'')
     return rec
+
+
+TLC_MAX_CHUNKS = 200  # longer streams are judged by the python mirror (keeps the JSON for TLC small)
+
+
+def _framed(rec, side, stream: bytes):
+    """Attach a chunked stream for judgement: by TLC, or beyond TLC_MAX_CHUNKS by the python mirror of Parse."""
+    ok, _b, used, count = H.py_parse_chunked(stream)
+    rec[side + '_pyvalid'] = bool(ok and used == len(stream))
+    if count <= TLC_MAX_CHUNKS:
+        rec[side + '_judge'] = 'tlc'
+        rec[side + '_stream'] = list(stream)
+    else:
+        rec[side + '_judge'] = 'python'
+        rec[side + '_stream'] = []
 
 
 def conc_chunk(ctx, case, idx):
@@ -181,14 +200,17 @@ def conc_chunk(ctx, case, idx):
     if res != 'body':
         recs.append({'kind': 'mkchunks', 'n': n, 'c': c, 'pat': pat, 'stream': [], 'pyok': False, 'pyused': 0})
     else:
-        pyok, _b, pyused = H.py_parse_chunked(stream)
+        pyok, _b, pyused, _cnt = H.py_parse_chunked(stream)
         recs.append({'kind': 'mkchunks', 'n': n, 'c': c, 'pat': pat, 'stream': list(stream), 'pyok': pyok,
                      'pyused': pyused, 'is_reference': list(stream) == case['streams']['plain']})
         if list(stream) == case['streams']['plain']:
             run.count('mk_chunks_equals_reference_writer')
     # the reference writer's output in every spelling -> the real readers
     for style, st in sorted(case['streams'].items()):
-        vias = ('direct', 'request', 'response') if style in ('plain', 'ext') or idx % 3 == 0 else ('direct',)
+        if run.quick:
+            vias = ('direct', 'request', 'response') if style == ('plain', 'ext', 'upper', 'lead0')[idx % 4] else ('direct',)
+        else:
+            vias = ('direct', 'request', 'response') if style in ('plain', 'ext') or idx % 3 == 0 else ('direct',)
         recs += _dechunk_records(ctx, bytes(st), vias, style)
     # whole exchanges, request and response direction, with and without content coding
     reply = body[::-1]
@@ -398,7 +420,7 @@ def conc_big(ctx, case):
     n, c, pat = case['n'], case['c'], case['pat']
     body = H.pattern_body(n, pat)
     stream = mk_chunks(body, c)
-    ok, parsed, used = H.py_parse_chunked(stream)
+    ok, parsed, used, _cnt = H.py_parse_chunked(stream)
     recs = [{'kind': 'big', 'what': 'mk_chunks', 'n': n, 'c': c, 'pat': pat, 'res': 'ok',
              'valid': bool(ok and used == len(stream)), 'same': parsed == body, 'framed': len(stream),
              'is_reference_len': len(stream) == case['framed']}]
@@ -411,7 +433,7 @@ def conc_big(ctx, case):
     if c >= 64:
         for coding in ['none', *ctx.registered]:
             r = _exchange(ctx, body, body[::-1], coding, c, 'sync', {'n': n, 'c': c, 'pat': pat})
-            pv = all(H.py_parse_chunked(bytes(r[k]))[0] for k in ('req_stream', 'resp_stream'))
+            pv = r['req_pyvalid'] and r['resp_pyvalid']
             recs.append({'kind': 'big', 'what': f'exchange/{coding}', 'n': n, 'c': c, 'pat': pat, 'res': r['res'],
                          'valid': pv and not (r['req_te'] and r['req_cl']) and not (r['resp_te'] and r['resp_cl']),
                          'same': r['delivered'] == 'same' and r['returned'] == 'same'})
@@ -536,12 +558,14 @@ def check(run, replay_path=None):  # noqa: ARG001, C901, PLR0912, PLR0915
     with ThreadPoolExecutor(max_workers=8) as pool:
         futs = {p: pool.submit(_emit, run, consts, p) for p in parts}
         rfuts = {d: pool.submit(_reader_mc, run, consts, d) for d in ('short', 'mutant')}
+        cov = pool.submit(_reader_mc, run, consts, 'mutant', True)
         cases = {}
         for p in parts:
             res, cases[p] = futs[p].result()
             run.add_tlc(res)
-        for d, f in rfuts.items():
-            run.add_tlc(f.result(), ['ReadSizeByte', 'ReadData', 'ReadCrLf'])
+        for f in rfuts.values():
+            run.add_tlc(f.result())
+        run.add_tlc(cov.result(), ['ReadSizeByte', 'ReadData', 'ReadCrLf'])
     run.note('cases', {p: len(c) for p, c in cases.items()})
     run.note('exhaustive', True)
 
